@@ -9,7 +9,8 @@
 (***************************************************************************)
 EXTENDS Integers, Sequences, FiniteSets, TLC, Json
 
-ShardSets == {"0", "0_1", "0_1_2", "0_to_11", "1", "1_2", "0_2", "0_x", "0_neg1", "0_01"}
+\* 0_00 / 0_00_2: two section names that are the same number
+ShardSets == {"0", "0_1", "0_1_2", "0_to_11", "1", "1_2", "0_2", "0_x", "0_neg1", "0_01", "0_00", "0_00_2"}
 Layouts == {"P", "PR", "PRR", "R", "PP", "Pdup"}          \* servers of every shard: roles; Pdup = same primary twice
 DefShards == {"shard_0", "shard_last", "shard_n", "random", "random_healthy", "junk"}
 DefRoles == {"any", "primary", "replica", "junk"}
@@ -30,7 +31,7 @@ Configs == {c \in All : Dist(c) <= 2}
 
 \* as numbers ("01" is the number 1)
 Contiguous(s) == s \in {"0", "0_1", "0_1_2", "0_01", "0_to_11"}
-NShards(s) == CASE s \in {"0", "1"} -> 1 [] s = "0_1_2" -> 3 [] s = "0_to_11" -> 12 [] OTHER -> 2
+NShards(s) == CASE s \in {"0", "1"} -> 1 [] s \in {"0_1_2", "0_00_2"} -> 3 [] s = "0_to_11" -> 12 [] OTHER -> 2
 
 \* what C15 lists as not servable
 Reasons(c) ==
